@@ -50,24 +50,27 @@ func verifTablesOf(v *version) []VerifTable {
 	return r
 }
 
-var verifVersionObserver atomic.Value // func(*VerifVersion)
+var verifVersionObserver atomic.Value // func(*VerifVersion) bool
 
 // VerifSetVersionObserver installs f (nil to remove). f is called, with the
-// session's version mutex held, for every version installed by any DB; the
-// version is pinned and must be released by the receiver later.
-func VerifSetVersionObserver(f func(*VerifVersion)) {
+// session's version mutex held, for every version installed by any DB. If f
+// returns true the version stays pinned and must be released by the receiver
+// later (not from inside f); otherwise the handle must not be used further.
+func VerifSetVersionObserver(f func(*VerifVersion) bool) {
 	verifVersionObserver.Store(f)
 }
 
 func verifVersionInstalled(s *session, v *version) {
-	f, _ := verifVersionObserver.Load().(func(*VerifVersion))
+	f, _ := verifVersionObserver.Load().(func(*VerifVersion) bool)
 	if f == nil || v.closing {
 		return
 	}
 	// vmu is held by the caller; v.ref >= 1 (held by the session), so this
 	// does not talk to the reference loop.
 	v.ref++
-	f(&VerifVersion{ID: v.id, Tables: verifTablesOf(v), v: v})
+	if !f(&VerifVersion{ID: v.id, Tables: verifTablesOf(v), v: v}) {
+		v.ref--
+	}
 }
 
 // VerifTables returns the table metadata of the current version.
